@@ -271,6 +271,11 @@ func (l *log) Get(offset int64) (message.Message, error) {
 	}
 
 	msg, err := rdr.Get(offset)
+	if err == index.ErrOffsetIndexEmpty && offset == message.OffsetNewest && segmentIndex > 0 {
+		// the head segment is empty (the newest messages were deleted),
+		// so the newest message is the last one of the previous segment
+		return l.readers[segmentIndex-1].Get(offset)
+	}
 	if err == index.ErrOffsetAfterEnd && segmentIndex < len(l.readers)-1 {
 		return msg, index.ErrOffsetNotFound
 	}
